@@ -39,7 +39,25 @@ static int v_create(pthread_t *t, void *arg) { *t = (pthread_t)1; v_created++; v
 #define pthread_mutex_destroy(m) 0
 #define pthread_cond_init(c, a) 0
 #define pthread_cond_destroy(c) 0
-#define pthread_cond_signal(c) 0
+/* wake-up discipline: a step that makes a waited-for condition true must signal (or broadcast) the
+ * condition variable its waiter sleeps on.  Whether the mutex is held while signalling is not
+ * demanded (POSIX allows either). */
+static void *v_sig[8];
+static int v_nsig;
+static int v_signal(pthread_cond_t *c)
+{
+	if (v_nsig < 8) v_sig[v_nsig] = c;
+	v_nsig++;
+	return 0;
+}
+static bool signalled(void *c)
+{
+	bool r = false;
+	for (int i = 0; i < 8; i++) if (i < v_nsig && v_sig[i] == c) r = true;
+	return r;
+}
+#define pthread_cond_signal(c) v_signal(c)
+#define pthread_cond_broadcast(c) v_signal(c)
 #define pthread_mutex_lock(m) v_lock(m)
 #define pthread_mutex_unlock(m) v_unlock(m)
 #define pthread_create(t, a, f, x) v_create((t), (x))
@@ -47,6 +65,7 @@ static int v_join(pthread_t t);
 #define pthread_join(t, r) v_join(t)
 /* a wait releases the mutex, records "this step blocked", lets the environment make the awaited
  * condition true (what that is depends on the step), and re-acquires the mutex */
+static int v_spurious, v_env_acted;
 static int v_block_mode;		/* 0: blocking is a violation in this step */
 static void v_env_wakes(void);
 static int v_wait(pthread_mutex_t *m)
@@ -54,8 +73,15 @@ static int v_wait(pthread_mutex_t *m)
 	v_unlock(m);
 	v_blocked++;
 	V_ASSERT(v_block_mode != 0, "C13: the step blocks although its enabling condition holds (a thread / a finished result is available)");
-	V_ASSERT(v_blocked <= 1, "C13: woken with the awaited condition true, the step waits again");
-	v_env_wakes();
+	V_ASSERT(v_blocked <= 1 + v_spurious, "C13: woken with the awaited condition true, the step waits again");
+	/* one spurious wake-up per step is possible: the wait returns although nobody made the
+	 * condition true; the code must re-test its condition and wait again */
+	if (v_spurious == 0 && v_env_acted == 0 && vn_bool())
+		v_spurious = 1;
+	else {
+		v_env_acted++;
+		v_env_wakes();
+	}
 	v_lock(m);
 	return 0;
 }
@@ -102,10 +128,12 @@ static int v_join(pthread_t t)
 	int saved = v_block_mode;
 	v_block_mode = 0;
 	if (v_join_mode == 1) {
+		V_ASSERT(signalled(&g_rh->rq->c), "C13: the handler thread sleeping on the queue's condition is not woken for the end of the stream (destroy would hang)");
 		result_worker(g_rh);
 	} else {
 		size_t k = (size_t)t - 100;
 		V_ASSERT(k < IDLEN, "C13: join on something that is not one of the pool's threads");
+		V_ASSERT(signalled(&I[k]->c), "C13: an idle worker is joined without being woken for the shutdown signal (destroy would hang)");
 		thread_worker(I[k]);
 	}
 	v_block_mode = saved;
@@ -199,6 +227,8 @@ void h_dispatch(void)
 	} else {
 		V_ASSERT(n1 == n0 && thr->rq == rq, "C13: unordered job remembers its queue and is not queued yet");
 	}
+	V_ASSERT(signalled(&thr->c), "C13: the chosen worker, sleeping on its own condition, is not woken for the job (lost wake-up: the job never runs)");
+	V_ASSERT(!ORDERED || signalled(&rq->c), "C13: the result handler is not woken for a newly queued ordered job");
 	V_ASSERT(v_locks_held == 0 && !v_lock_error, "C13: mutex discipline in dispatch");
 	V_WITNESS();
 }
@@ -220,6 +250,7 @@ void h_resultq_next(void)
 	V_ASSERT(n1 == n0 - 1 && (RQN < 2 || rq->head == Q[1]), "C13: exactly the head is removed from the result queue");
 	V_ASSERT(rq->nthreads == nt0 - 1, "C13: outstanding-thread count decremented once");
 	V_ASSERT(i1 == i0 + 1 && pool->head == Q[0], "C13: the thread returns to the idle list");
+	V_ASSERT(signalled(&pool->c), "C13: a thread returned to the idle list does not wake a dispatcher waiting on the saturated pool (lost wake-up: dispatch hangs)");
 	V_ASSERT(v_locks_held == 0 && !v_lock_error, "C13: mutex discipline in resultq_next");
 	V_WITNESS();
 }
@@ -239,7 +270,7 @@ void h_resultq_end(void)
 	if (done)
 		V_ASSERT(!v_blocked, "C13: finished and nothing outstanding: the handler loop must end without waiting");
 	else
-		V_ASSERT(v_blocked == 1, "C13: results outstanding (or not finished): the handler must wait, not end");
+		V_ASSERT(v_blocked == 1 + v_spurious && v_env_acted == 1, "C13: results outstanding (or not finished): the handler must wait until that changes -- also across a spurious wake-up -- not end");
 	V_ASSERT(v_locks_held == 0 && !v_lock_error, "C13: mutex discipline");
 	V_WITNESS();
 }
@@ -267,7 +298,7 @@ void h_worker_step(void)
 	g_me = me;
 	v_block_mode = 1;
 	thread_worker(me);		/* one job, then it waits; the environment answers with the shutdown signal */
-	V_ASSERT(v_blocked == 1, "C13: after its job the worker must wait for the next one (it neither exits nor spins)");
+	V_ASSERT(v_blocked == 1 + v_spurious && v_env_acted == 1, "C13: after its job the worker must wait for the next one, also across a spurious wake-up (it neither exits nor spins)");
 	V_ASSERT(cb_calls == 1 && snap_res == &tokens[5], "C13: the job runs exactly once and its result is stored");
 	V_ASSERT(snap_cb_null && !snap_running, "C13: worker clears its mailbox and stops running");
 	size_t n1 = rq_len_and_inv();
@@ -279,6 +310,7 @@ void h_worker_step(void)
 		for (size_t i = 0; i + 1 < n1; i++) t = t->next;
 		V_ASSERT(t == me, "C13: finished thread appended at the tail");
 	}
+	V_ASSERT(ORDERED ? signalled(&me->c) : signalled(&rq->c), "C13: a finished job does not wake whoever waits for its result (ordered: the handler waits on the thread's condition; unordered: on the queue's) -- lost wake-up, the result is never delivered");
 	V_ASSERT(v_locks_held == 0 && !v_lock_error, "C13: mutex discipline in the worker");
 	V_WITNESS();
 }
@@ -307,12 +339,13 @@ void h_dispatch_saturated(void)
 	size_t c0 = pool->count, nt0 = rq->nthreads;
 	v_block_mode = 3;
 	threadpool_dispatch(pool, &RH, ORDERED, job_fn, &tokens[0]);
-	V_ASSERT(v_blocked == 1, "C13: a saturated pool must make dispatch wait");
+	V_ASSERT(v_blocked == 1 + v_spurious && v_env_acted == 1, "C13: a saturated pool must make dispatch wait until a thread comes back, also across a spurious wake-up");
 	V_ASSERT(v_created == 0 && pool->count == c0, "C13: the pool never runs more worker threads than its configured maximum");
 	V_ASSERT(g_returned->cb == job_fn && g_returned->arg == &tokens[0] && g_returned->running, "C13: the recycled thread receives the job");
 	V_ASSERT(pool_len_and_inv() == 0 && rq->nthreads == nt0 + 1, "C13: idle list and outstanding count after a recycled dispatch");
 	size_t n1 = rq_len_and_inv();
 	V_ASSERT(n1 == RQN + (ORDERED ? 1 : 0), "C13: queue length after dispatch");
+	V_ASSERT(signalled(&g_returned->c) && (!ORDERED || signalled(&rq->c)), "C13: worker (and, for ordered jobs, the result handler) woken after a recycled dispatch");
 	V_ASSERT(v_locks_held == 0 && !v_lock_error, "C13: mutex discipline");
 	V_WITNESS();
 }
